@@ -3,21 +3,23 @@
 # Rebuilds the simulator against /repo's current working tree (replace directive in sim/go.mod),
 # then runs the check. Exit 0 held / 1 violation / 2 harness or build trouble.
 set -u
-cd "$(dirname "$0")/sim" || exit 2
+ROOT="$(cd "$(dirname "$0")" && pwd)"
+export VERIF_DIR="$ROOT"
+cd "$ROOT/sim" || exit 2
 export GOFLAGS=-mod=mod GOPROXY=off GOSUMDB=off GOTOOLCHAIN=local
 GO=go1.26.8
 command -v $GO >/dev/null 2>&1 || GO=/opt/veriftools/go1.26.8/bin/go
-mkdir -p /verif/.build
+mkdir -p $ROOT/.build
 build() {
-  local out=/verif/.build/sim
-  if ! $GO build -o "$out" ./cmd/sim 2>/verif/.build/build.log; then
-    echo "BUILD-FAILED (see /verif/.build/build.log)"; tail -n 30 /verif/.build/build.log; return 2
+  local out=$ROOT/.build/sim
+  if ! $GO build -o "$out" ./cmd/sim 2>$ROOT/.build/build.log; then
+    echo "BUILD-FAILED (see $ROOT/.build/build.log)"; tail -n 30 $ROOT/.build/build.log; return 2
   fi
 }
 build_race() {
-  local out=/verif/.build/sim-race
-  if ! $GO build -race -o "$out" ./cmd/sim 2>/verif/.build/build-race.log; then
-    echo "BUILD-FAILED (see /verif/.build/build-race.log)"; tail -n 30 /verif/.build/build-race.log; return 2
+  local out=$ROOT/.build/sim-race
+  if ! $GO build -race -o "$out" ./cmd/sim 2>$ROOT/.build/build-race.log; then
+    echo "BUILD-FAILED (see $ROOT/.build/build-race.log)"; tail -n 30 $ROOT/.build/build-race.log; return 2
   fi
 }
 needs_race() {
@@ -28,14 +30,14 @@ needs_race() {
 case "${1:-}" in
   build) build && build_race; exit $? ;;
   replay)
-    if needs_race "$2"; then build_race || exit 2; export GORACE="halt_on_error=0 exitcode=0"; exec /verif/.build/sim-race replay "$2"; fi
-    build || exit 2; exec /verif/.build/sim replay "$2" ;;
+    if needs_race "$2"; then build_race || exit 2; export GORACE="halt_on_error=0 exitcode=0"; exec $ROOT/.build/sim-race replay "$2"; fi
+    build || exit 2; exec $ROOT/.build/sim replay "$2" ;;
   "") echo "usage: run.sh <property> <quick|thorough>"; exit 2 ;;
 esac
 if needs_race "$1"; then
   build_race || exit 2
   export GORACE="halt_on_error=0 exitcode=0"
-  exec /verif/.build/sim-race check "$1" "${2:-quick}"
+  exec $ROOT/.build/sim-race check "$1" "${2:-quick}"
 fi
 build || exit 2
-exec /verif/.build/sim check "$1" "${2:-quick}"
+exec $ROOT/.build/sim check "$1" "${2:-quick}"
